@@ -123,7 +123,7 @@ class PathResult:
 
 class Engine:
     def __init__(self, facts, inline_depth=4, max_paths=4000, summaries=None, inline_filter=None,
-                 skip_tracing=True, loop_unroll=0, havoc_loops=False, unique_impls=False):
+                 skip_tracing=True, loop_unroll=0, havoc_loops=False, unique_impls=False, havoc_mut_args=True):
         self.facts = facts
         self.inline_depth = inline_depth
         self.max_paths = max_paths
@@ -136,6 +136,7 @@ class Engine:
         # just the first one (loop-carried state such as a cache filled by an earlier iteration is then unknown)
         self.havoc_loops = havoc_loops
         self.unique_impls = unique_impls
+        self.havoc_mut_args = havoc_mut_args
         self.inlined = set()
         self.opaque = set()
 
@@ -168,15 +169,30 @@ class Engine:
 
     def load(self, st, place):
         base, proj = place
+        v = None
         for n in range(len(proj), -1, -1):
             key = (base, proj[:n])
             if key in st.store:
-                return self.project(st.store[key], proj[n:])
-        if base[0] == 'S':
-            return self.project(T('deref', base[1]), proj)
-        if base[0] == 'K':
-            return self.project(self.decode_const(base[1], base[2]), proj)
-        return self.project(('sym', 'uninit:%s' % (base,)), proj)
+                v = self.project(st.store[key], proj[n:])
+                break
+        if v is None:
+            if base[0] == 'S':
+                v = self.project(T('deref', base[1]), proj)
+            elif base[0] == 'K':
+                return self.project(self.decode_const(base[1], base[2]), proj)
+            else:
+                v = self.project(('sym', 'uninit:%s' % (base,)), proj)
+        # fields of this place written separately (`x.f = v` where x itself is an opaque value or memory behind a pointer):
+        # a read of the whole place sees them
+        if base[0] in ('L', 'S') and len(st.store) < 4000:
+            n0 = len(proj)
+            subs = [k for k in st.store if k[0] == base and len(k[1]) > n0 and k[1][:n0] == proj]
+            if subs:
+                for k in sorted(subs, key=lambda k_: len(k_[1])):
+                    nv = self.update(v, k[1][n0:], st.store[k])
+                    if nv is not None:
+                        v = nv
+        return v
 
     def project(self, v, proj):
         for e in proj:
@@ -210,10 +226,7 @@ class Engine:
                 rest = proj[n:]
                 nv = self.update(pv, rest, v)
                 if nv is not None and nv[0] == 't' and nv[1] == 'with':
-                    # the whole value reflects the change; the per-field entry is kept as well (the models read those)
-                    if base[0] == 'L':
-                        st.store[key] = nv
-                    break
+                    break       # kept as a per-field entry; `load` of the whole value overlays it
                 if nv is not None:
                     st.store[key] = nv
                     return
@@ -844,8 +857,23 @@ class Engine:
                             callee_body = cb_
                             name = cb_.path
                             break
-            if callee_body is None and self.unique_impls and (fn.get('targs') or []) and '::' in declared and \
+            if callee_body is None and args and (fn.get('targs') or []) and '::' in declared and \
                     fr.body.crate.types[fn['targs'][0]].get('k') == 'param' and declared.startswith(('clock_bound', 'clockbound')):
+                # a trait method on a type parameter whose receiver *value* is known here (a struct literal captured by a
+                # closure, `worker.run(ctx)`): the impl for the type of that value
+                rv_ = args[0]
+                if rv_[0] == 'ref':
+                    rv_ = self.load(st, rv_[1])
+                if rv_[0] == 'agg' and rv_[2] is not None and isinstance(rv_[1], str) and not rv_[1].startswith(('closure:', 'std::')):
+                    trait_path, meth = declared.rsplit('::', 1)
+                    for cb_ in self.facts.bodies():
+                        if cb_.name == meth and cb_.impl_trait == trait_path and cb_.defkind != 'Closure' and \
+                                (cb_.impl_self or '').split('<')[0] == rv_[1].split('<')[0]:
+                            callee_body = cb_
+                            name = cb_.path
+                            break
+            if callee_body is None and self.unique_impls and (fn.get('targs') or []) and '::' in declared and \
+                    fr.body.crate.types[fn['targs'][0]].get('k') == 'param' and declared.startswith(fr.body.crate.name + '::'):
                 # a workspace trait method called on a type parameter that is not known here: when the trait has exactly
                 # one implementation in the (non-test) build, that is the only type the parameter can stand for
                 trait_path, meth = declared.rsplit('::', 1)
@@ -886,6 +914,16 @@ class Engine:
             results.append(PathResult('panic', st, None, site))
             return False
         rv = T('call', name, n, *args)
+        # what an opaque callee can reach through a `&mut` / `*mut` argument is unknown afterwards
+        if self.havoc_mut_args and not in_tr:
+            for i_, (o_, a_) in enumerate(zip(t['args'], args)):
+                if a_[0] != 'ref' or o_.get('k') not in ('copy', 'move'):
+                    continue
+                ty_ = body.crate.types[o_['p']['ty']] if 'ty' in o_['p'] else {}
+                if ty_.get('k') in ('ref', 'ptr') and ty_.get('mut') is True and a_[1][0][0] in ('L', 'S', 'H'):
+                    for k_ in [k_ for k_ in st.store if k_[0] == a_[1][0] and len(k_[1]) > len(a_[1][1]) and k_[1][:len(a_[1][1])] == a_[1][1]]:
+                        del st.store[k_]
+                    st.store[a_[1]] = T('after', rv, C(i_, 'usize'))
         self.write(st, dest, rv)
         return self.goto(st, fr, bb, target, results)
 
